@@ -314,6 +314,7 @@ def run(repo='/repo', tier='quick'):
     res.floor('C17.f', 'rewinds of a ring cursor to 0', nz, 5)
     c17g(db, res)
     c17h(db, res)
+    c17i(db, res)
     return res
 
 
@@ -473,3 +474,32 @@ def c17h(db, res):
                 res.check(not cur_const, 'C17.h', '%s:loop-exit:%s%s%s' % (name, a[0], a[1], a[2] if not cur_const else 'K'), 'exit on the length of the text or on a byte test',
                           '%s leaves a scan of the text when its cursor `%s` reaches the constant %s: the digits beyond that position are cut off with the trailing junk and a longer number is read as its first digits instead of being refused' % (name, a[0], a[2]), c[0].get('loc', f.loc))
     res.floor('C17.h', 'loop exits in the numeric parsers', n, 8)
+
+
+def c17i(db, res):
+    """A chunk length is the run of hex digits at the start of the line; whatever follows it on the line (a chunk extension,
+    blanks, junk) is cut off before the digits are converted. A path that hands the uncut line to the converter makes every
+    chunk that carries an extension an invalid length."""
+    res.rule('C17.i', 'the chunk length is converted from its digit run only: in htp_parse_chunked_length every path on which the digit scan stopped before the end of the line (i != len) cuts the line at the scan position (len = i) before the integer parser is called')
+    f = db.get('htp_parse_chunked_length')
+    calls = f.calls('htp_parse_positive_integer_whitespace')
+    if not calls:
+        raise AnalysisBroken('htp_parse_chunked_length no longer calls htp_parse_positive_integer_whitespace')
+    n = 0
+    bad = None
+    for b, i, c in calls:
+        L = P.K(c['args'][1])
+        for atoms, events, end, seq in P.enum_paths_seq(f, (f.entry, -1), stop=lambda bb, ii, st, b=b, i=i: (bb, ii) == (b, i), max_paths=50000):
+            if not (end[0] == 'stop' or (end[0] == 'return' and tuple(end[1:3]) == (b, i))):
+                continue
+            stopped = [a for a, e in atoms if a[2] == L and a[1] == '!=' and re.match(r'^[A-Za-z_]\w*$', a[0])]
+            if not stopped:
+                continue
+            n += 1
+            cur = stopped[-1][0]
+            cut = any(x[0] == 'stmt' and any(w['op'] == '=' and strip(w['l']).get('k') == 'var' and strip(w['l'])['name'] == L and P.K(w['r']) == cur for w in nodes(x[3], lambda y: y.get('k') == 'assign')) for x in seq)
+            if not cut:
+                bad = c
+    res.check(bad is None and n > 0, 'C17.i', 'htp_parse_chunked_length:junk-cut-before-conversion', 'all %d paths with trailing bytes cut the line at the end of the digits' % n,
+              'htp_parse_chunked_length converts the line without cutting it at the end of the digit run on a path where something follows the digits: a chunk extension ("5;name=value") makes the chunk length invalid - the request stream ends in an error, the response falls back to identity and delivers framing as body', (bad or {}).get('loc', f.loc))
+    res.floor('C17.i', 'paths with bytes after the digit run', n, 1)
